@@ -105,6 +105,30 @@ def fixed_fields():
     return out
 
 
+def overrides_handling():
+    """How boot() treats the dictionary it is given (ast, fail closed): every statement of boot() that mentions
+    sv_overrides must be one of
+        sv_overrides = dict(sv_overrides)          (optional: work on a copy)
+        sv_overrides.update(kwargs)
+        sv.update_default_values(**sv_overrides)
+    in this order.  -> True when the copy is made before the update, False when the update is in place."""
+    f = fn_ast(B.boot)
+    body = f.body[1:] if isinstance(f.body[0], ast.Expr) and isinstance(f.body[0].value, ast.Constant) else f.body
+    hits = [st for st in body if any(isinstance(x, ast.Name) and x.id == "sv_overrides" for x in ast.walk(st))]
+    nested = [st for st in ast.walk(f) if isinstance(st, ast.stmt) and st not in body and st is not f
+              and any(isinstance(x, ast.Name) and x.id == "sv_overrides" for x in ast.walk(st))]
+    if nested:
+        raise ValueError("boot(): sv_overrides is used inside a nested statement")
+    src = [ast.unparse(st) for st in hits]
+    copy, upd, use = "sv_overrides = dict(sv_overrides)", "sv_overrides.update(kwargs)", \
+        "sv.update_default_values(**sv_overrides)"
+    if src == [copy, upd, use]:
+        return True
+    if src == [upd, use]:
+        return False
+    raise ValueError("boot(): unexpected handling of sv_overrides: %r" % (src,))
+
+
 def consts_unit():
     out = [D.HEADER % "dump_c20.py"]
     for name in ("DTCM_SIZE", "BOOT_BYTE_SIZE", "BOOT_WORD_SIZE", "BOOT_MAX_BLOCKS", "BOOT_DATA_OFFSET",
@@ -130,6 +154,8 @@ def consts_unit():
     if not isinstance(dflt, dict):
         raise ValueError("default of sv_overrides is not a dict")
     out.append(D.definition("boot_default_sv_overrides", "list (string * Z)", dict_lit(dflt)))
+    out.append("(* boot() copies the dictionary it is given before updating it with the keywords (false: in place) *)\n")
+    out.append(D.definition("boot_copies_overrides", "bool", "true" if overrides_handling() else "false"))
     out.append(D.definition("boot_default_port", "Z", D.z(sig.parameters["boot_port"].default)))
     for i in range(1, 6):
         out.append(D.definition("spin%d_boot_options" % i, "list (string * Z)",
